@@ -452,9 +452,9 @@ func (g *gen) events(r *cv.Rand, nEntries int, thorough bool) {
 	// fixed corpus: the witness of D12a (fixed by 228bb41) and its neighbours
 	u := &T{K: kUint, M: 256, Name: "a"}
 	d12 := &Entry{Type: "event", Name: "E", Inputs: []Param{{T: u}}}
-	g.add(&Spec{Kind: "event", Class: "D12a:named-event-empty-topics", Entry: d12, Topics: []hexb{}, Data: word(big.NewInt(7)), Expect: "refuse"})
-	g.add(&Spec{Kind: "event", Class: "nil-topics", Entry: d12, Topics: nil, Data: word(big.NewInt(7)), Expect: "refuse"})
-	g.add(&Spec{Kind: "event", Class: "D12a:named-event-empty-topics", Entry: &Entry{Type: "event", Name: "E0"}, Topics: []hexb{}, Data: nil, Expect: "refuse"})
+	g.add(&Spec{Kind: "event", Class: "D12a:named-event-empty-topics", Entry: d12, Topics: []hexb{}, Data: word(big.NewInt(7)), Expect: "refuse", Key: "C12/D12a-named-event-empty-topics"})
+	g.add(&Spec{Kind: "event", Class: "nil-topics", Entry: d12, Topics: nil, Data: word(big.NewInt(7)), Expect: "refuse", Key: "C12/D12a-named-event-empty-topics"})
+	g.add(&Spec{Kind: "event", Class: "D12a:named-event-empty-topics", Entry: &Entry{Type: "event", Name: "E0"}, Topics: []hexb{}, Data: nil, Expect: "refuse", Key: "C12/D12a-named-event-empty-topics"})
 	g.add(&Spec{Kind: "event", Class: "valid:anonymous:0-of-0-indexed", Entry: &Entry{Type: "event", Name: "E0", Anonymous: true}, Topics: []hexb{}, Data: nil, Expect: "values", ExpVals: []*V{}})
 	// every elementary kind indexed, named and anonymous
 	kinds := []*T{{K: kUint, M: 8}, {K: kUint, M: 256, Alias: true}, {K: kInt, M: 8}, {K: kInt, M: 256}, {K: kInt, M: 64}, {K: kAddress}, {K: kBool},
